@@ -24,7 +24,7 @@ class PathCap(Exception):
 
 
 class Effect(object):
-    __slots__ = ("kind", "item", "key", "op", "value", "old", "extra", "site", "loops", "stack", "name", "args", "ver")
+    __slots__ = ("kind", "item", "key", "op", "value", "old", "extra", "site", "loops", "stack", "name", "args", "ver", "rd")
 
     def __init__(self, kind, **kw):
         self.kind = kind
@@ -40,6 +40,7 @@ class Effect(object):
         self.name = kw.get("name")
         self.args = kw.get("args")
         self.ver = None
+        self.rd = None
 
     def __repr__(self):
         if self.kind in ("read", "write"):
@@ -245,6 +246,7 @@ class Engine(object):
         self._paths = 0
         self._steps = 0
         self._fx = {}
+        self._item_adt = {}
         self.blind = set()             # (unmodelled callee, effectful closure) pairs: analysis blind spots, fail closed
 
     # ------------------------------------------------------------------ public
@@ -613,14 +615,71 @@ class Engine(object):
             if ak == "adt":
                 fs = tuple(zip(rv["fields"], ops))
                 if rv["is_enum"]:
-                    return ("variant", rv["adt"], rv["variant"], fs)
-                return ("struct", rv["adt"], fs)
+                    return rewrap(rv["adt"], rv["variant"], fs)
+                return self.canon_struct(rv["adt"], fs)
             if ak == "closure":
                 return ("closure", rv["closure"], tuple(ops))
             return ("unknown", "aggregate", ak)
         if k == "repeat":
             return ("call", "repeat", (self.val(st, self.eval_operand(st, body, fid, rv["o"])), ("str", rv["n"])))
         return ("unknown", "rvalue", k)
+
+    def item_value_adt(self, item):
+        """def-path id of T for a storage const Item<T> / Map<K, T> / SnapshotMap<K, T> (None when T is not an ADT)"""
+        if item in self._item_adt:
+            return self._item_adt[item]
+        res = None
+        b = self.by_dp.get(item[1]) if isinstance(item, tuple) and len(item) > 1 and item[0] == "const" else None
+        if b is not None:
+            from .facts import _split_top, _match_angle
+            ty = b.locals[0]["ty"]
+            i = ty.find("<")
+            if i > 0 and ty.startswith("cw_storage_plus::"):
+                inner = ty[i + 1:_match_angle(ty, i)]
+                last = _split_top(inner, ", ")[-1].strip()
+                if not hasattr(self, "_pretty2adt"):
+                    self._pretty2adt = {}
+                    for k, v in self.facts.adts.items():
+                        self._pretty2adt.setdefault(v.get("pretty", k), k)
+                        self._pretty2adt.setdefault(k, k)
+                res = self._pretty2adt.get(last.split("<")[0])
+        self._item_adt[item] = res
+        return res
+
+    def term_adt(self, t):
+        """ADT of the value a storage read produced (None when unknown)"""
+        if not isinstance(t, tuple) or not t or t[0] != "vfield":
+            return None
+        if t[2] == "Ok" and t[1][0] == "load":
+            return self.item_value_adt(t[1][1])
+        if t[2] == "Some" and t[1][0] == "vfield" and t[1][2] == "Ok" and t[1][1][0] == "may_load":
+            return self.item_value_adt(t[1][1][1])
+        return None
+
+    def canon_struct(self, adt, fs):
+        """`S { f: new, ..base }` (or the same thing spelled field by field / after destructuring) and `base.f = new`
+        summarise to the same term: a literal of type S some of whose fields are `base.<same name>` for one stored value
+        `base` of type S, the others not, becomes update(base, changed fields)."""
+        base = None
+        copied, changed = 0, []
+        for n, v in fs:
+            if isinstance(v, tuple) and v and v[0] == "field" and v[2] == n:
+                b = v[1]
+                if b[0] == "update":
+                    b = b[1]
+                if base is None and self.term_adt(b) == adt:
+                    base = v[1]
+                if base is not None and v[1] == base:
+                    copied += 1
+                    continue
+            changed.append((n, v))
+        if base is None or not copied or not changed:
+            return ("struct", adt, fs)
+        if base[0] == "update":
+            d = dict(base[2])
+            d.update(changed)
+            return ("update", base[1], tuple(sorted(d.items())))
+        return ("update", base, tuple(sorted(changed)))
 
     def binop(self, op, a, b, ty=None):
         if op in ("AddWithOverflow", "SubWithOverflow", "MulWithOverflow"):
@@ -931,7 +990,7 @@ class Engine(object):
                         names = [f["name"] for f in v["fields"]]
             names = names or [str(i) for i in range(len(vals))]
             if ctor["is_enum"]:
-                return [(st, ("variant", ctor["adt"], ctor["variant"], tuple(zip(names, vals))))]
+                return [(st, rewrap(ctor["adt"], ctor["variant"], tuple(zip(names, vals))))]
             return [(st, ("struct", ctor["adt"], tuple(zip(names, vals))))]
         # closure invocation through Fn* traits
         if trait_name in ("std::ops::FnOnce::call_once", "std::ops::Fn::call", "std::ops::FnMut::call_mut"):
@@ -996,6 +1055,16 @@ def contains_kind(t, kinds):
     if t and isinstance(t[0], str) and t[0] in kinds:
         return True
     return any(contains_kind(x, kinds) for x in t if isinstance(x, tuple))
+
+
+def rewrap(adt, v, fs):
+    """Some(x's payload) where x was decided Some is x itself (same for Ok): `if let Some(g) = o { c.f = Some(g) }` and
+    `if o.is_some() { c.f = o }` store the same value and summarise to the same term"""
+    if adt in (OPTION, RESULT) and v in ("Some", "Ok") and len(fs) == 1:
+        x = fs[0][1]
+        if isinstance(x, tuple) and x and x[0] == "vfield" and x[2] == v and x[3] == "0" and adt == OPTION:
+            return x[1]
+    return ("variant", adt, v, fs)
 
 
 def negate(a):
